@@ -3,6 +3,7 @@
 package rueidis
 
 import (
+	"sync"
 	"context"
 	"errors"
 	"fmt"
@@ -26,6 +27,8 @@ func genDedicated(seed uint64, tier, variant string) any {
 	p.Opt.KeepAliveMs, p.Opt.WriteTimeoutMs = 3600_000, 600_000
 	p.Opt.DisableRetry = true
 	p.Sched = SchedSpec{CutProb: pick(r, 0.0, 0.4), MaxSteps: 8000, TickWeight: 0.2}
+	// a client-wide invalidation callback next to the one a session installs: both are owed the invalidations
+	p.Opt.OnInvalidations = r.IntN(2) == 0
 	nt := 2 + r.IntN(5)
 	for ti := 0; ti < nt; ti++ {
 		var calls []CallSpec
@@ -68,6 +71,8 @@ func genDedicated(seed uint64, tier, variant string) any {
 
 func execDedicated(t *testing.T, plan any, out *Outcome) {
 	p := plan.(*Plan)
+	var invMu sync.Mutex
+	invGot := map[*sched.CallRec][]string{} // per session: what its SetOnInvalidations callback was called with, in order
 	e := standardRun(t, out.Seed, p, out, runHooks{
 		extraCall: func(e *env, cl Client, cs CallSpec, ctx context.Context, rec *sched.CallRec) *CallResult {
 			if cs.Kind != "dsession" {
@@ -88,7 +93,19 @@ func execDedicated(t *testing.T, plan any, out *Outcome) {
 				case "subscribe":
 					r.Res = append(r.Res, toRes(dc.Do(ctx, dc.B().Subscribe().Channel("dch").Build())))
 				case "inval":
-					dc.SetOnInvalidations(func([]RedisMessage) {})
+					dc.SetOnInvalidations(func(ms []RedisMessage) {
+						ev := "nil"
+						if ms != nil {
+							ks := make([]string, len(ms))
+							for i, m := range ms {
+								ks[i] = m.string()
+							}
+							ev = strings.Join(ks, ",")
+						}
+						invMu.Lock()
+						invGot[rec] = append(invGot[rec], ev)
+						invMu.Unlock()
+					})
 					r.Res = append(r.Res, toRes(dc.Do(ctx, dc.B().Arbitrary("CLIENT", "TRACKING", "ON", "BCAST").Build())))
 				}
 				for _, c := range cs.Cmds {
@@ -229,6 +246,75 @@ func execDedicated(t *testing.T, plan any, out *Outcome) {
 			}
 		}
 	done:
+		// C27, dedicated part: the callback installed with SetOnInvalidations saw exactly the invalidations the server sent
+		// on the session's connection, in order. The reply stream is ordered: every invalidation the server wrote before
+		// the reply of a command the session got an answer to had been handed to the callback when that answer returned.
+		if spec.S == "inval" {
+			trackIdx, lastAnsweredIdx := -1, -1
+			answered := map[int]bool{} // ConnSeq of the session's commands that returned a reply
+			k := 1                     // res.Res[0] is CLIENT TRACKING ON, then one result per planned command
+			trackSeq := -2
+			for _, ex := range cmdsOnConn {
+				if ex.ConnSeq == start-1 && len(ex.Argv) > 2 && strings.EqualFold(ex.Argv[0], "CLIENT") && strings.EqualFold(ex.Argv[1], "TRACKING") {
+					trackSeq = ex.ConnSeq
+				}
+				if ex.ConnSeq >= start && ex.ConnSeq <= end+1 && k < len(res.Res) {
+					if res.Res[k].Err == "" {
+						answered[ex.ConnSeq] = true
+					}
+					k++
+				}
+			}
+			for i, f := range l.S.OutLog {
+				if f.Push {
+					continue
+				}
+				if trackIdx < 0 && f.ConnSeq == trackSeq {
+					trackIdx = i // reply of CLIENT TRACKING ON BCAST, the command in front of the session's WATCH
+				}
+				if answered[f.ConnSeq] {
+					lastAnsweredIdx = i
+				}
+			}
+			if trackIdx >= 0 && len(res.Res) > 0 && res.Res[0].Err == "" {
+				var must, all []string
+				for i := trackIdx + 1; i < len(l.S.OutLog); i++ {
+					f := l.S.OutLog[i]
+					if !f.Push || len(f.Value.A) < 2 || f.Value.A[0].S != "invalidate" {
+						continue
+					}
+					ev := "nil"
+					if !f.Value.A[1].Null && f.Value.A[1].T != '_' {
+						ks := make([]string, len(f.Value.A[1].A))
+						for j, kv := range f.Value.A[1].A {
+							ks[j] = kv.S
+						}
+						ev = strings.Join(ks, ",")
+					}
+					all = append(all, ev)
+					if i < lastAnsweredIdx {
+						must = append(must, ev)
+					}
+				}
+				invMu.Lock()
+				got := append([]string(nil), invGot[rec]...)
+				invMu.Unlock()
+				for len(got) > 0 && got[len(got)-1] == "nil" && (len(got) > len(all) || all[len(got)-1] != "nil") {
+					got = got[:len(got)-1] // the nil that announces the loss or release of the connection
+				}
+				switch {
+				case len(got) < len(must) || strings.Join(got[:len(must)], "|") != strings.Join(must, "|"):
+					out.violate("C27", "dedicated-callback-missed-invalidation", "task %d call %d, connection %d: the server sent the invalidations %v before replies the session received, the callback installed with SetOnInvalidations saw %v", task, rec.Index, conn, must, got)
+				case len(got) > len(all) || strings.Join(got, "|") != strings.Join(all[:len(got)], "|"):
+					out.violate("C27", "dedicated-callback-foreign-invalidation", "task %d call %d, connection %d: the callback installed with SetOnInvalidations saw %v, the server sent %v on that connection", task, rec.Index, conn, got, all)
+				default:
+					out.judged("dedicated-callback-saw-the-servers-invalidations")
+					if len(must) > 0 {
+						out.probe("dedicated-callback-received-invalidation")
+					}
+				}
+			}
+		}
 		out.judged("dedicated-session-judged")
 		if spec.S != "" {
 			out.probe("session-with-" + spec.S)
